@@ -92,6 +92,9 @@ func vhMeltFlow(mode int, nPolls int) {
 	ys := make([]string, nIn)
 	for i := range in {
 		in[i] = env.genuineProof(fmt.Sprintf("in%d", i))
+		if mode&vhC05 != 0 {
+			in[i].Witness = v.Str(fmt.Sprintf("in%d.witness", i)) // stored with the proof, reported by state checks (C15)
+		}
 		ys[i] = vhY(in[i].Secret)
 	}
 	usedBefore, pendBefore := v.ZU(0), v.ZU(0)
@@ -164,6 +167,16 @@ func vhMeltFlow(mode int, nPolls int) {
 			}
 			env.checkOutcome(env.observe("mq1", ys), fmt.Sprintf("after poll %d", k+1))
 			v.Reach(fmt.Sprintf("poll-%d", k+1))
+		}
+		// whatever path the inputs took (spent at once, locked then settled by a quote poll or by a state check), a final
+		// state check reports them with the witness they were presented with
+		fin, ferr := m.ProofsStateCheck(ys)
+		if ferr == nil {
+			for i := range fin {
+				if i < len(in) && fin[i].State != nut07.Unspent {
+					v.Assert(fin[i].Witness == in[i].Witness, "C15 a SPENT or PENDING proof is reported with the witness it was spent with, also when a pending melt was settled by a later poll")
+				}
+			}
 		}
 	}
 }
